@@ -172,7 +172,8 @@ func Modf(f float64) (float64, float64) {
 		return f, f
 	}
 	frac := Mod(f, 1)
-	return f - frac, frac
+	// Both results have the sign of f, including an integer part of -0.
+	return Copysign(f-frac, f), frac
 }
 
 func NaN() float64 {
